@@ -1,26 +1,40 @@
 #!/usr/bin/env python3
-"""Run checks against a kept seeded change: apply seeded/<id>/patch.diff to /repo, run ./check <P> for each property given
-(default: the property it breaks), undo the patch straight afterwards, record what each check reported in meta.json.
-usage: run_seeded.py <seeded id> [<property> ...] [--tier quick|thorough]"""
-import json, os, subprocess, sys, time
+"""Run checks against a kept seeded change. By default the patch is applied in a scratch worktree of /repo (outside /repo and
+/verif, removed afterwards) and the checks are pointed at it with VERIF_REPO, so that /repo itself is never disturbed and several
+seeded runs can proceed side by side; --in-repo applies it to /repo itself (git -C /repo apply; git -C /repo checkout -- . afterwards).
+Evidence of these runs goes to build/seeded-evidence, never to evidence/.
+usage: run_seeded.py <seeded id> [<property> ...] [--tier quick|thorough] [--in-repo]"""
+import json, os, shutil, subprocess, sys, time
 V = os.path.dirname(os.path.dirname(os.path.abspath(__file__)))
-args = sys.argv[1:]; tier = "quick"
+args = sys.argv[1:]; tier = "quick"; in_repo = False
 if "--tier" in args:
     i = args.index("--tier"); tier = args[i + 1]; del args[i:i + 2]
+if "--in-repo" in args:
+    in_repo = True; args.remove("--in-repo")
 sid = args[0]; d = os.path.join(V, "seeded", sid); meta = json.load(open(os.path.join(d, "meta.json")))
 props = args[1:] or [meta["breaks_property"]]
-assert subprocess.run("git -C /repo status --porcelain --untracked-files=no", shell=True, stdout=subprocess.PIPE, text=True).stdout.strip() == "", "/repo not clean"
-r = subprocess.run("git -C /repo apply %s/patch.diff" % d, shell=True); assert r.returncode == 0
+def sh(c):
+    return subprocess.run(c, shell=True, stdout=subprocess.PIPE, stderr=subprocess.STDOUT, text=True)
+if in_repo:
+    assert sh("git -C /repo status --porcelain --untracked-files=no").stdout.strip() == "", "/repo not clean"
+    tree = "/repo"
+else:
+    tree = "/tmp/seedrepo_%d" % os.getpid()
+    r = sh("git -C /repo worktree add --detach %s HEAD" % tree); assert r.returncode == 0, r.stdout
+r = sh("git -C %s apply %s/patch.diff" % (tree, d)); assert r.returncode == 0, r.stdout
 try:
     for p in props:
         t0 = time.time()
-        env = dict(os.environ); env["VERIF_EVIDENCE_DIR"] = os.path.join(V, "build", "seeded-evidence")   # never overwrite the unchanged-tree evidence
+        env = dict(os.environ); env["VERIF_EVIDENCE_DIR"] = os.path.join(V, "build", "seeded-evidence"); env["VERIF_REPO"] = tree
         r = subprocess.run([os.path.join(V, "check"), p, "--tier", tier], stdout=subprocess.PIPE, stderr=subprocess.STDOUT, text=True, cwd=V, env=env)
         keys = [l.strip() for l in r.stdout.splitlines() if l.strip().startswith("key=")]
         viol = [l for l in r.stdout.splitlines() if l.startswith("VIOLATION")]
         meta.setdefault("checks", {})["%s/%s" % (p, tier)] = {"exit": r.returncode, "violations": len(viol), "keys": [k[:300] for k in keys[:6]], "wall_s": round(time.time() - t0, 1),
                                                               "ran_at": time.strftime("%Y-%m-%d %H:%M:%S")}
-        print("%s %s on seeded %s: exit %d, %d violation line(s) %s" % (p, tier, sid, r.returncode, len(viol), keys[:2]))
+        print("%s %s on seeded %s: exit %d, %d violation line(s) %s" % (p, tier, sid, r.returncode, len(viol), keys[:2]), flush=True)
 finally:
-    subprocess.run("git -C /repo checkout -- .", shell=True)
+    if in_repo:
+        sh("git -C /repo checkout -- .")
+    else:
+        sh("git -C /repo worktree remove --force %s" % tree); shutil.rmtree(tree, ignore_errors=True)
 json.dump(meta, open(os.path.join(d, "meta.json"), "w"), indent=1)
